@@ -1329,14 +1329,36 @@ fn get_pendding_opps_since_from_sync(since: u64, dbs: &Arc<Databases>) -> Vec<St
     vec_ops_to_process.sort_by(|a, b| a.opp_position.cmp(&b.opp_position)); //sort by insert order
     for op_record in vec_ops_to_process {
         log::debug!("{}", op_record.to_string());
+        // A record whose database or key this node does not know (a database that was never
+        // snapshotted is gone after a restart, a key id may never have reached the key map)
+        // can not be turned into a command. It is skipped: panicking here would kill the
+        // replication supervisor with the cluster state locked
+        let db_name = match id_name_db_map.get(&op_record.db) {
+            Some(db_name) => db_name,
+            None => {
+                log::warn!("Skipping op log record of the unknown database id {}", op_record.db);
+                continue;
+            }
+        };
         //@todo sort by key to optmize speed
         let opp = match op_record.opp {
             ReplicateOpp::Update => {
-                let db_name = id_name_db_map.get(&op_record.db).unwrap();
                 log::debug!("db_name: {} and key: {}", db_name, op_record.key);
-                let key_str = id_keys_map.get(&op_record.key).unwrap();
+                let key_str = match id_keys_map.get(&op_record.key) {
+                    Some(key_str) => key_str,
+                    None => {
+                        log::warn!("Skipping op log record of the unknown key id {}", op_record.key);
+                        continue;
+                    }
+                };
                 if last_db != db_name {
-                    db = dbs_map.get(db_name).unwrap();
+                    db = match dbs_map.get(db_name) {
+                        Some(db) => db,
+                        None => {
+                            log::warn!("Skipping op log record of the missing database {}", db_name);
+                            continue;
+                        }
+                    };
                     last_db = db_name;
                 }
                 let value = match get_key_value_new(key_str, &db) {
@@ -1350,18 +1372,24 @@ fn get_pendding_opps_since_from_sync(since: u64, dbs: &Arc<Databases>) -> Vec<St
                 format!("replicate {} {} {}", db_name, key_str, value)
             }
             ReplicateOpp::Remove => {
-                let db_name = id_name_db_map.get(&op_record.db).unwrap();
-                let key_str = id_keys_map.get(&op_record.key).unwrap();
+                let key_str = match id_keys_map.get(&op_record.key) {
+                    Some(key_str) => key_str,
+                    None => {
+                        log::warn!("Skipping op log record of the unknown key id {}", op_record.key);
+                        continue;
+                    }
+                };
                 format!("replicate-remove {} {}", db_name, key_str)
             }
-            ReplicateOpp::CreateDb => {
-                let db_name = id_name_db_map.get(&op_record.db).unwrap();
-                let db = dbs_map.get(db_name).unwrap();
-                make_create_db_command(&db)
-            }
+            ReplicateOpp::CreateDb => match dbs_map.get(db_name) {
+                Some(db) => make_create_db_command(&db),
+                None => {
+                    log::warn!("Skipping op log record of the missing database {}", db_name);
+                    continue;
+                }
+            },
 
             ReplicateOpp::Snapshot => {
-                let db_name = id_name_db_map.get(&op_record.db).unwrap();
                 format!("replicate-snapshot {}", db_name)
             }
         };
